@@ -226,6 +226,18 @@ class Interp(Engine):
 
     def ev_Dict(self, n, fr):
         d = {}
+        if len(n.keys) == 1 and n.keys[0] is not None:
+            k0, v0 = self.ev(n.keys[0], fr), self.ev(n.values[0], fr)
+            if isinstance(k0, Sym):
+                # {symbolic_int_key: scalar}: a symbolic dict with exactly that entry
+                vk = "oref" if v0 is None else kind_of(v0)
+                if vk is None:
+                    raise Unsupported("dict literal with a symbolic key and a non-scalar value")
+                pd = PDict.fresh(vk, name="dl", empty=True)
+                pd.dom = z3.Store(pd.dom, to_z3(k0, "int"), z3.BoolVal(True))
+                pd.val = z3.Store(pd.val, to_z3(k0, "int"), to_z3(v0, vk))
+                return pd
+            return PDict({self.hashable(k0): v0})
         for k, v in zip(n.keys, n.values):
             if k is None:
                 src = self.ev(v, fr)
@@ -553,7 +565,30 @@ class Interp(Engine):
         m = getattr(self, "ex_" + type(s).__name__, None)
         if m is None:
             raise Unsupported(f"statement {type(s).__name__} at line {getattr(s, 'lineno', '?')}")
-        return m(s, fr)
+        r = m(s, fr)
+        self.ghost_after_statement(s, fr)
+        return r
+
+    def ghost_after_statement(self, s, fr):
+        """Ghost code of the sidecar contract: options["ghost_after"] = [(source-text-of-a-simple-statement, fn(E, vars))].
+        `fn` runs right after every execution of a statement of the CARRIER ITSELF whose unparsed text equals the
+        given text (simple statements only).  Ghost code may update ghost state only (objects handed in by setup);
+        it cannot write program variables.  A hook whose statement no longer exists never fires - the proof then fails
+        as undecided (the carrier changed shape), it is never a silent pass."""
+        c = self.cur_contract
+        if c is None or fr.func is None or fr.func.key != self.cur_key or self.spec_mode:
+            return
+        hooks = c.options.get("ghost_after")
+        if not hooks or isinstance(s, (ast.For, ast.While, ast.If, ast.With, ast.Try, ast.FunctionDef, ast.Match)):
+            return
+        txt = ast.unparse(s)
+        for want, fn in hooks:
+            if want == txt:
+                self.cur_frame = fr
+                fired = getattr(self, "_hooks_fired", None)
+                if fired is not None:
+                    fired.add(want)
+                fn(self, self.visible_vars())
 
     def ex_Expr(self, s, fr):
         if isinstance(s.value, ast.Constant):
